@@ -231,6 +231,13 @@ def lexLoop : Nat → List Nat → Bool → Bool → Except Err (List Tok)
     character, so `length + 1` iterations suffice. -/
 def lex (s : List Nat) : Except Err (List Tok) := lexLoop (s.length + 1) s true false
 
+instance {α : Type} [DecidableEq α] : DecidableEq (Except Err α) := fun a b =>
+  match a, b with
+  | .ok x, .ok y => if h : x = y then isTrue (by rw [h]) else isFalse (fun e => by cases e; exact h rfl)
+  | .error x, .error y => if h : x = y then isTrue (by rw [h]) else isFalse (fun e => by cases e; exact h rfl)
+  | .ok _, .error _ => isFalse (fun e => by cases e)
+  | .error _, .ok _ => isFalse (fun e => by cases e)
+
 /-- the spellings of the tokens -/
 def spellings (r : Except Err (List Tok)) : Except Err (List (List Nat)) :=
   match r with
